@@ -3,6 +3,7 @@
 1. Lean: Props/C19 — (a) sig_roundtrip_partial / sig_valid_partial (+ not_sig_roundtrip, not_sig_valid),
    (b) default_is_valid_expr_partial / default_closed_partial (+ refutations), (c) imports_closed /
    imports_closed_request.  Proof covers these three decision cores only.
+   (d) annotation_preserved (an explicit return annotation wins over the conventional type of a special method).
 2. Tie (harness/c19/tie.py): the models vs. ASTStubGenerator / ImportTracker / CPython's grammar on generated inputs.
 3. Search on the real tools (harness/c19/search.py) — *testing*, labelled as such: generated packages →
    stubgen in parse-only / semantic / inspect mode → ast.parse, mypy on the stub alone, stubtest, structural
@@ -45,10 +46,13 @@ def main(ctx: Ctx) -> None:
     ctx.coverage["covered_by_theorem"] = [
         "signature emission: names, kinds, has-default flags survive; `/` and `*` placement; grammar shape",
         "default rendering: emitted default is an expression / a closed literal (under stated hypotheses)",
-        "import bookkeeping: every required imported name is bound by the emitted import lines"]
+        "import bookkeeping: every required imported name is bound by the emitted import lines",
+        "return type decision: a spelled-out return annotation is the stub's (annotation_preserved)"]
     ctx.coverage["searched_only"] = [
         "stub parses (whole file)", "mypy on the stub alone", "stubtest on (module, stub)",
-        "public names and spelled-out annotations vs the source AST", "inspect mode"]
+        "public names and spelled-out annotations vs the source AST",
+        "resolved types of every annotated definition, source vs stub, both built by mypy (harness/c19/typecmp.py)",
+        "inspect mode"]
     ctx.assume(
         "search inputs: generated packages that import without side effects under the host CPython (3.12) and "
         "type-check under mypy's default options; anything else is excluded and counted (search_excluded_inputs)",
@@ -76,7 +80,14 @@ def replay(ctx: Ctx, path: str) -> int:
     det = rep.get("detail", rep)
     print(json.dumps({"what": body.get("what"), "observed": rep.get("observed")}, indent=1))
     part = det.get("part")
-    if part == "A" or "real_def_line" in det:
+    if part == "D":
+        src = "\n".join(det.get("source") or ["import abc", "from typing import Any", "class Mask: pass", "class Vec: pass",
+                         "class R:", "    def %s(self, a)%s:" % (det["case"]["name"], " -> " + det["case"]["ret"] if det["case"].get("ret") else "")]
+                         + ["        " + b for b in det.get("body", ["pass"])]) + "\n"
+        print(src)
+        print("---- stub emitted now:")
+        print(tie.real_stub(src))
+    elif part == "A" or "real_def_line" in det:
         src = "\n".join(["from typing import Callable", "import mod", "class Foo: pass"] + det["source"]) + "\n"
         out = tie.real_stub(src)
         print(src)
